@@ -1,5 +1,5 @@
 (** * The remeshing kernels of the model are, verbatim, the programs that tools/tr_kern.py generates from
-    remeshing/cut.rs and remeshing/swap.rs on every run (hand-written file, not generated). *)
+    remeshing/cut.rs, remeshing/swap.rs and cell_insertion/vertices.rs (single insertion) on every run (hand-written file, not generated). *)
 From Coq Require Import List NArith Bool.
 From HC Require Import Stm.Prog Map2.Ops2 Map2.Kern2 Map2.GenKern.
 Open Scope N_scope.
@@ -17,6 +17,10 @@ Lemma gen_cut_inner_edge_ok n ks e nd1 nd2 nd3 nd4 nd5 nd6 :
 Proof. cbv beta zeta delta [gen_cut_inner_edge cut_inner_edge reattach_face_anchor]. syn_eq; reflexivity. Qed.
 Lemma gen_swap_edge_ok n ks e : gen_swap_edge n ks e = swap_edge n ks e.
 Proof. cbv beta zeta delta [gen_swap_edge swap_edge restore_vertex restore_anchor]. syn_eq; reflexivity. Qed.
+
+Lemma gen_insert_vertex_on_edge_ok n ks e nd1 nd2 t :
+  gen_insert_vertex_on_edge n ks e nd1 nd2 t = insert_vertex_on_edge n ks e nd1 nd2 t.
+Proof. cbv beta zeta delta [gen_insert_vertex_on_edge insert_vertex_on_edge]. syn_eq; reflexivity. Qed.
 
 Theorem kernels_are_the_source :
   (forall n ks e nd1 nd2 nd3, gen_cut_outer_edge n ks e nd1 nd2 nd3 = cut_outer_edge n ks e nd1 nd2 nd3) /\
